@@ -119,8 +119,16 @@ Definition inject (h : hstate) (a : list Z) : hstate :=
   mkH (mkMS w (nthz r 0) (nthz r 3) (z2b (nthz r 1)) (ms_hashLog3 ms) (ms_dds ms) (ms_tables ms))
       (h_ldm h) (h_params h) (z2b (nthz r 2)) (z2b (nthz r 4)).
 
+(* opcode 109 (tie device): replace nextToUpdate by the observed value (what the match finder left), so that the
+   index code's own updates of nextToUpdate can be predicted for the next call *)
+Definition set_ntu (h : hstate) (v : Z) : hstate :=
+  let ms := h_ms h in
+  mkH (mkMS (ms_window ms) (ms_loadedDictEnd ms) v (ms_dms ms) (ms_hashLog3 ms) (ms_dds ms) (ms_tables ms))
+      (h_ldm h) (h_params h) (h_forceNC h) (h_optFirst h).
+
 Definition hist_step (freq : bool) (h : hstate) (opcode : Z) (a : list Z) : hstate * list Z :=
   if opcode =? 108 then let h' := inject h a in (h', h_out h' true) else
+  if opcode =? 109 then let h' := set_ntu h (nthz a 0) in (h', h_out h' true) else
   match decode_op opcode a with
   | Some o => let h' := step freq h o in (h', h_out h' (step_ok freq h o))
   | None => (h, [-999])
